@@ -1,4 +1,4 @@
 #!/bin/bash
 # seedrun.sh <worktree> <check> [tier] : run a check against a worktree that carries a seeded change (does not touch /repo)
 wt=$1; chk=$2; tier=${3:-quick}
-cd /verif && VERIF_REPO=$wt VTLMC_WORKERS=${VTLMC_WORKERS:-6} ./check $chk --tier $tier 2>&1 | grep -v conda | grep -E "VIOLATION|key=|KNOWN|tier=|TOOL" | cut -c1-330 | head -12
+cd /verif && VERIF_REPO=$wt VTLMC_WORKERS=${VTLMC_WORKERS:-6} ./check $chk --tier $tier 2>&1 | grep -v conda | grep -E "VIOLATION|key=|tier=|TOOL" | cut -c1-330 | head -14
